@@ -46,7 +46,7 @@ pub fn run(ctx: &Ctx, c09: bool) -> (Report, Meta) {
     let prop = if c09 { "C09" } else { "C08" };
     let meta = if c09 {
         Meta::new(
-            "bounded problems x 6 methods x both directions x tolerances; event functions t - c, y_k - c, linear forms with thresholds placed from a pilot run's accepted-step grid (mid-step, boundary +-{1e-13,1e-12,1e-9} relative, several functions firing in one step) and random ones, three direction filters; oracle: sign pattern of g over consecutive reported points decides how many events each step must contain; single known roots (t - c) must be found exactly once at c; non-trivial = run with >= 1 located event (distinct by scenario hash)",
+            "bounded problems x 6 methods x both directions x tolerances; event functions t - c, y_k - c, linear forms with thresholds placed from a pilot run's accepted-step grid (mid-step, boundary +-{1e-13,1e-12,1e-9} relative, several functions firing in one step) and random ones, three direction filters; one run in four makes one of the functions terminal (count 1 or 2, any list position) so that the last interval is cut by the stop; oracle: sign pattern of g over consecutive reported points decides how many events each step must contain; single known roots (t - c) must be found exactly once at c; non-trivial = run with >= 1 located event (distinct by scenario hash)",
         )
         .assume("an exact zero of g at a step endpoint makes the adjacent intervals inconclusive for that function (the property allows either)")
         .floor("intervals_with_strict_sign_change", 1000)
@@ -121,6 +121,13 @@ pub fn run(ctx: &Ctx, c09: bool) -> (Report, Meta) {
                 } else {
                     scn.events.push(random_event(&mut rng, nst, scn.x0, scn.xend));
                 }
+            }
+            if i % 4 == 2 && !scn.events.is_empty() {
+                // one of the functions is terminal (after its first or second occurrence): the run then ends inside a step,
+                // and the sign changes of the OTHER functions between the last accepted endpoint and the stopping point
+                // must still be reported (whatever the position of the terminal function in the list)
+                let j = rng.below(scn.events.len());
+                scn.events[j].terminal = Some(1 + rng.below(2));
             }
         } else {
             let nev = 1 + rng.below(4);
@@ -300,12 +307,88 @@ pub fn run(ctx: &Ctx, c09: bool) -> (Report, Meta) {
                         rep.inconclusive("exact_zero_at_step_endpoint");
                         continue;
                     }
+                    let stopped_here = sol.status == Status::UserInterrupt && k + 2 == t.len();
+                    if stopped_here && ev.terminal.is_some() {
+                        // the stopping point is this function's own root: the sign of g there is rounding noise
+                        rep.inconclusive("terminal_root_is_the_endpoint");
+                        continue;
+                    }
+                    if stopped_here {
+                        rep.count("other_functions_judged_on_the_interval_cut_by_a_terminal_event", 1);
+                        // a root of this function within root-finder accuracy of the stopping point may legitimately be
+                        // located just beyond it (and then not be reported): judge only crossings clearly before the stop
+                        let tq = t[k + 1] - dirn * 4.0 * delta(t[k + 1]);
+                        if (tq - t[k]) * dirn <= 0.0 {
+                            rep.inconclusive("interval_cut_by_terminal_event_below_root_accuracy");
+                            continue;
+                        }
+                        match sol.sol(tq) {
+                            Ok(wq) => {
+                                let gq = ev.g(tq, &wq);
+                                if !(gq != 0.0 && gq.signum() == g1.signum()) {
+                                    rep.inconclusive("crossing_within_root_accuracy_of_the_terminal_stop");
+                                    continue;
+                                }
+                            }
+                            Err(_) => {
+                                rep.inconclusive("dense_solution_unavailable_before_terminal_stop");
+                                continue;
+                            }
+                        }
+                    }
                     let (a, b) = (t[k].min(t[k + 1]), t[k].max(t[k + 1]));
                     let closed = sol.t_events[e].iter().filter(|&&te| te >= a && te <= b).count();
                     let open = sol.t_events[e].iter().filter(|&&te| te > a && te < b).count();
                     if strict_cross(g0, g1, ev.dir) {
                         firing += 1;
                         rep.count("intervals_with_strict_sign_change", 1);
+                        if stopped_here && closed == 0 && !matches!(ev.kind, EvKind::Time { .. }) {
+                            // the stopping point is not an accepted step endpoint: the solver judged this function on the
+                            // full step, which only the run without the terminal flag shows. Judge the cut interval only
+                            // if g along that full step has exactly one sign change and it lies clearly before the stop
+                            // (t - c is monotone and needs no such confirmation).
+                            let mut twin = scn.clone();
+                            for e2 in twin.events.iter_mut() {
+                                e2.terminal = None;
+                            }
+                            let mut single_crossing_before_stop = false;
+                            if let Outcome::Ok(ts) = run_solve(&prob, &twin, false, false).out {
+                                if let Some(idx) = ts.t.iter().position(|&v| v.to_bits() == t[k].to_bits()) {
+                                    if idx + 1 < ts.t.len() {
+                                        let (ta, tb) = (ts.t[idx], ts.t[idx + 1]);
+                                        let ns = 48;
+                                        let mut changes = 0;
+                                        let mut change_at = ta;
+                                        let mut prev = g0;
+                                        let mut ok = true;
+                                        for q in 1..=ns {
+                                            let tt = if q == ns { tb } else { ta + (tb - ta) * (q as f64) / (ns as f64) };
+                                            match ts.sol(tt) {
+                                                Ok(w) => {
+                                                    let gv = ev.g(tt, &w);
+                                                    if gv == 0.0 || gv.signum() != prev.signum() {
+                                                        changes += 1;
+                                                        change_at = tt;
+                                                    }
+                                                    if gv != 0.0 {
+                                                        prev = gv;
+                                                    }
+                                                }
+                                                Err(_) => {
+                                                    ok = false;
+                                                    break;
+                                                }
+                                            }
+                                        }
+                                        single_crossing_before_stop = ok && changes == 1 && (t[k + 1] - dirn * 4.0 * delta(t[k + 1]) - change_at) * dirn > 0.0;
+                                    }
+                                }
+                            }
+                            if !single_crossing_before_stop {
+                                rep.inconclusive("cut_interval_not_decidable_from_the_full_step");
+                                continue;
+                            }
+                        }
                         if closed == 0 || open >= 2 {
                             let mut c2 = case.clone();
                             c2["interval"] = json!({"k": k, "t_k": t[k], "t_k1": t[k + 1], "g_k": g0, "g_k1": g1, "function": e, "events_of_function": sol.t_events[e]});
